@@ -123,6 +123,12 @@ func (proof MerkleProof) Verify(i int, leaf, root Hash) error {
 		parentPos = parentPos >> 1
 	}
 
+	// the index must address a leaf of a tree of depth len(proof): 0 <= i < 2^len(proof)
+	// (for a negative index the arithmetic shifts never reach zero)
+	if parentPos != 0 {
+		return errors.New("error: index out of range")
+	}
+
 	if curNode != root {
 		return errors.New("error: invalid proof")
 	}
